@@ -11,7 +11,8 @@ What is modelled, mirroring the code of the repaired tree:
   `insert`, `remove`, `|`, `&`, `^`, the compound assignments (which delegate to the by-value operators),
   `From<UnderlineStyle>`, `names`.
 * `RGBA` `Display` / `from_str_named` (rasterize 0.6.9 `color.rs`): `#rrggbb[aa]`; a name table is a
-  parameter; an alpha suffix `/<float>` is float arithmetic and is an explicit *unmodelled* outcome.
+  parameter; the alpha suffix `/<float>` is float arithmetic: `parseRGBAWith` takes it as a parameter (a total
+  function on the alpha byte), `parseRGBA` (used by the driver) answers the explicit outcome *unmodelled*.
 * `Face` `Display` / `from_str_named` (`split(',')`, `splitn(2,'=')`, `trim`, key match, `|=`).
 * `Size`: the serde-derived form (map with `height`/`width`, or a two element sequence) and the textual
   `Display`/`FromStr` pair.
@@ -188,10 +189,9 @@ inductive PErr where
   | unmodelled
   deriving DecidableEq, Repr
 
-/-- `RGBA::from_str_named`; `named` = the colour table -/
-def parseRGBA (named : List Char → Option RGBA) (color : List Char) : Except PErr RGBA :=
-  if color.contains '/' then .error .unmodelled
-  else if color.head? = some '#' ∧ (utf8Len color = 7 ∨ utf8Len color = 9) then
+/-- the part of `RGBA::from_str_named` after the alpha suffix has been cut off: `#RRGGBB(AA)` or a name -/
+def parseRGBACore (named : List Char → Option RGBA) (color : List Char) : Except PErr RGBA :=
+  if color.head? = some '#' ∧ (utf8Len color = 7 ∨ utf8Len color = 9) then
     match hexPairs color.tail with
     | some [r, g, b] => .ok ⟨r, g, b, 255⟩
     | some [r, g, b, a] => .ok ⟨r, g, b, a⟩
@@ -200,6 +200,35 @@ def parseRGBA (named : List Char → Option RGBA) (color : List Char) : Except P
     match named color with
     | some c => .ok c
     | none => .error .parseError
+
+/-- `RGBA::from_str_named` without float arithmetic; `named` = the colour table.  A string with the `/alpha`
+    suffix gets the explicit outcome `unmodelled` (this is what the driver answers) -/
+def parseRGBA (named : List Char → Option RGBA) (color : List Char) : Except PErr RGBA :=
+  if color.contains '/' then .error .unmodelled
+  else parseRGBACore named color
+
+/-- `color.rfind('/')`: the text before the last `sep` and the text after it -/
+def splitLast (sep : Char) : List Char → Option (List Char × List Char)
+  | [] => none
+  | c :: r =>
+    match splitLast sep r with
+    | some (a, b) => some (c :: a, b)
+    | none => if c = sep then some ([], r) else none
+
+/-- `RGBA::from_str_named` in full.  The float part is a parameter: `alpha suffix` stands for
+    `suffix.parse::<f32>()` (`none` = `InvalidAlpha`) followed by `|a| (a as f32 * alpha) as u8` — a total
+    function on bytes, because a float-to-`u8` cast saturates.  The suffix is parsed before the colour. -/
+def parseRGBAWith (alpha : List Char → Option (UInt8 → UInt8)) (named : List Char → Option RGBA)
+    (color : List Char) : Except PErr RGBA :=
+  match splitLast '/' color with
+  | none => parseRGBACore named color
+  | some (color, suffix) =>
+    match alpha suffix with
+    | none => .error .parseError
+    | some scale =>
+      match parseRGBACore named color with
+      | .ok rgba => .ok { rgba with a := scale rgba.a }
+      | .error e => .error e
 
 /-! ## Face -/
 
@@ -235,32 +264,41 @@ def attrKeys : List (List Char × FaceAttrs) :=
    (sUnderlineDashed, FaceAttrs.UNDERLINE_DASHED), (sBold, FaceAttrs.BOLD), (sItalic, FaceAttrs.ITALIC),
    (sBlink, FaceAttrs.BLINK), (sReverse, FaceAttrs.REVERSE), (sStrike, FaceAttrs.STRIKE)]
 
-/-- the closure of the `try_fold` -/
-def faceStep (named : List Char → Option RGBA) (face : Face) (attrs : List Char) : Except PErr Face :=
+/-- the closure of the `try_fold`; `pc` = the colour parser (`RGBA::from_str_named` over the table) -/
+def faceStep (pc : List Char → Except PErr RGBA) (face : Face) (attrs : List Char) : Except PErr Face :=
   let key := trim (beforeFirst '=' attrs)
   let value := trim (afterFirst '=' attrs)
   if key = sFg then
-    match parseRGBA named value with
+    match pc value with
     | .ok c => .ok { face with fg := some c }
     | .error e => .error e
   else if key = sBg then
-    match parseRGBA named value with
+    match pc value with
     | .ok c => .ok { face with bg := some c }
     | .error e => .error e
   else match attrKeys.lookup key with
     | some flag => .ok { face with attrs := face.attrs.bitorAssign flag }
     | none => if key = [] then .ok face else .error .parseError
 
-def faceFold (named : List Char → Option RGBA) : List (List Char) → Face → Except PErr Face
+def faceFold (pc : List Char → Except PErr RGBA) : List (List Char) → Face → Except PErr Face
   | [], face => .ok face
   | p :: ps, face =>
-    match faceStep named face p with
-    | .ok face' => faceFold named ps face'
+    match faceStep pc face p with
+    | .ok face' => faceFold pc ps face'
     | .error e => .error e
 
-/-- `Face::from_str_named` -/
+/-- `Face::from_str_named` over a colour parser -/
+def parseFaceP (pc : List Char → Except PErr RGBA) (string : List Char) : Except PErr Face :=
+  faceFold pc (splitOn ',' string) Face.default
+
+/-- `Face::from_str_named`, strings with an `/alpha` suffix answered `unmodelled` (driver) -/
 def parseFace (named : List Char → Option RGBA) (string : List Char) : Except PErr Face :=
-  faceFold named (splitOn ',' string) Face.default
+  parseFaceP (parseRGBA named) string
+
+/-- `Face::from_str_named` in full, the float part as the parameter `alpha` (see `parseRGBAWith`) -/
+def parseFaceWith (alpha : List Char → Option (UInt8 → UInt8)) (named : List Char → Option RGBA)
+    (string : List Char) : Except PErr Face :=
+  parseFaceP (parseRGBAWith alpha named) string
 
 /-- pieces joined by single commas (the `first` flag of `Display for Face`) -/
 def joinComma : List (List Char) → List Char
@@ -512,6 +550,58 @@ def visit (sched : Nat → List Nat) (doc : List Entry) : Outcome Image :=
 
 /-- a buffer schedule that always suffices (every `read` of a non-empty buffer delivers a byte or ends) -/
 def defaultSched (n : Nat) : List Nat := List.replicate (n + 1) 32
+
+/-! ## JSON values, and what `serde_json` hands to the image visitor
+
+An abstract JSON value (what `serde_json` has parsed: syntax errors and the recursion limit are behind us).
+`deImage` states which entries the visitor of `Deserialize for Image` meets for a given value: this is the
+model's reading of `serde_json` + the derived `Size` deserialiser (modelled, not verified; tied by the
+correspondence on image documents, whose requests are written in terms of the same entries). -/
+
+inductive Json where
+  | null
+  | bool (b : Bool)
+  | nat (n : Nat)                                 -- a non-negative integer literal
+  | num                                           -- any other number: negative, fraction, exponent
+  | str (utf8 : List UInt8)
+  | arr (items : List Json)
+  | obj (members : List (List UInt8 × Json))      -- in document order, repeated keys kept
+
+def kData : List UInt8 := [100, 97, 116, 97]
+def kChannels : List UInt8 := [99, 104, 97, 110, 110, 101, 108, 115]
+def kSize : List UInt8 := [115, 105, 122, 101]
+def kHeight : List UInt8 := [104, 101, 105, 103, 104, 116]
+def kWidth : List UInt8 := [119, 105, 100, 116, 104]
+
+def Json.uval : Json → UVal
+  | .nat n => .num n
+  | _ => .bad
+
+def Json.sizeDoc : Json → SizeDoc
+  | .obj ms => .map (ms.map fun m => (if m.1 = kHeight then .height else if m.1 = kWidth then .width else .other, m.2.uval))
+  | .arr xs => .seq (xs.map Json.uval)
+  | _ => .other
+
+/-- one member of the object as the visitor's `match key` sees it -/
+def Json.entry (m : List UInt8 × Json) : Entry :=
+  if m.1 = kData then
+    match m.2 with
+    | .str t => .data t
+    | _ => .bad
+  else if m.1 = kChannels then
+    match m.2 with
+    | .nat n => if n < USIZE then .channels n else .bad
+    | _ => .bad
+  else if m.1 = kSize then
+    match Size.de m.2.sizeDoc with
+    | some s => .size s.height s.width
+    | none => .bad
+  else .other
+
+/-- `Image::deserialize` on a JSON value: `deserialize_map` rejects everything but an object -/
+def deImage (sched : Nat → List Nat) : Json → Outcome Image
+  | .obj ms => visit sched (ms.map Json.entry)
+  | _ => .err
 
 /-! ## line protocol -/
 open SurfModel.Proto
